@@ -120,7 +120,10 @@ Inductive op :=
   | Recv (c : Z) (n : Z)             (* a user thread: chan.recv(n), non-blocking *)
   | RecvErr (c : Z) (n : Z)          (* chan.recv_stderr(n) *)
   | SetCombine (c : Z) (b : bool)    (* chan.set_combine_stderr(b) *)
-  | PollExit (c : Z).                (* exit_status_ready() / recv_exit_status() *)
+  | PollExit (c : Z)                 (* exit_status_ready() / recv_exit_status() *)
+  | LocalClose (c : Z).              (* chan.close(): _close_internal -> _set_closed; the channel STAYS in
+                                        self._channels until the peer's CLOSE ("the remote side may still try
+                                        to send meta-data (exit-status, etc)") *)
 
 Inductive event :=
   | EvOut (c : Z) (s : list Z)       (* recv returned s *)
@@ -169,6 +172,8 @@ Definition step (s : state) (o : op) : state * list event :=
       let '(x, old) := set_combine (ch c) b in ((k, upd ch c x), [EvComb c old])
   | PollExit c =>
       (s, [EvExit c (exit_ready (ch c)) (if exit_ready (ch c) then c_exit (ch c) else 0)])
+  | LocalClose c =>
+      ((k, upd ch c (mkChan (c_out (ch c)) (c_err (ch c)) (c_comb (ch c)) (c_exit (ch c)) true true true)), [])
   end.
 
 Fixpoint run (s : state) (ops : list op) : state * list event :=
